@@ -67,8 +67,9 @@ class Parser:
         self.tokens = tokens
         self.builtins = builtins
         self.pos = 0
-        assert tokens
-        self.eof = Token(TokenKind.EOI, "", -1, tokens[-1].grammar)
+        # An empty or comment-only grammar has no tokens and no rules.
+        grammar = tokens[-1].grammar if tokens else ""
+        self.eof = Token(TokenKind.EOI, "", len(grammar), grammar)
 
     def current(self) -> Token:
         try:
@@ -117,6 +118,10 @@ class Parser:
             while self.current().kind == TokenKind.RULE_DOC:
                 self.pos += 1
                 rule_doc.append(self.eat(TokenKind.COMMENT_TEXT).value)
+
+            if self.current().kind == TokenKind.EOI:
+                # Trailing doc comments that don't belong to a rule.
+                break
 
             identifier = self.eat(TokenKind.IDENTIFIER)
             self.eat(TokenKind.ASSIGN_OP)
